@@ -31,11 +31,11 @@ MC = {
         ('joint-feldman n=3 t=1 one Byzantine, 1 broadcast + 1 private/receiver', consts(3, 1, [0, 1, 2], [0], 1, 1, 0), 600),
     ],
     'thorough': [
-        ('qual n=3 t=1 Byzantine dealer, 3 broadcasts + 1 private/receiver', consts(3, 1, [0], [0], 3, 1, 0), 3000),
-        ('qual n=3 t=1 Byzantine dealer, slack, 2 broadcasts', consts(3, 1, [0], [0], 2, 1, 1), 3000),
-        ('qual n=4 t=1 Byzantine dealer, 2 broadcasts', consts(4, 1, [0], [0], 2, 1, 0), 3000),
-        ('qual n=3 t=1 honest dealer, Byzantine participant, 4 broadcasts', consts(3, 1, [0], [1], 4, 0, 1), 3000),
-        ('joint-feldman n=3 t=1 one Byzantine, 2 broadcasts + 1 private/receiver', consts(3, 1, [0, 1, 2], [0], 2, 1, 0), 3000),
+        ('qual n=3 t=1 Byzantine dealer, 3 broadcasts + 1 private/receiver', consts(3, 1, [0], [0], 3, 1, 0), 14000),
+        ('qual n=3 t=1 Byzantine dealer, slack, 2 broadcasts', consts(3, 1, [0], [0], 2, 1, 1), 14000),
+        ('qual n=4 t=1 Byzantine dealer, 2 broadcasts', consts(4, 1, [0], [0], 2, 1, 0), 14000),
+        ('qual n=3 t=1 honest dealer, Byzantine participant, 4 broadcasts', consts(3, 1, [0], [1], 4, 0, 1), 14000),
+        ('joint-feldman n=3 t=1 one Byzantine, 2 broadcasts + 1 private/receiver', consts(3, 1, [0, 1, 2], [0], 2, 1, 0), 14000),
     ],
 }
 
